@@ -278,6 +278,8 @@ def run_property(pid, tier, seed, t0, pin=False):
         my_fails = []
         for f in u.fails:
             tags = f["clause_tags"] if f["clause_tags"] else f["tags"]
+            if f["owner"] in ("fn", "lemma") and not tags:
+                tags = [pid]      # an extracted function nobody tagged: every property of this unit relies on it
             if f["owner"] in ("fn", "lemma") and tag_matches(tags, pid):
                 my_fails.append(f)
             elif f["owner"] in ("prelude", "unknown"):
